@@ -189,9 +189,10 @@ func broadcasterFacts(s *src, f *facts) {
 		for _, c := range append(append(append(cancels, closes...), dones...), dels...) {
 			under = under && li.heldFor(c)
 		}
-		f.b("bcFreeCancels", len(cancels) > 0, s.pos(first(cancels)))
-		f.b("bcFreeClosesChan", len(closes) > 0, s.pos(first(closes)))
-		f.b("bcFreeClosesDone", len(dones) > 0, s.pos(first(dones)))
+		// "Free cancels / closes": for EVERY entry it finds — the only guard allowed around the effect is the look-up's `ok`
+		f.b("bcFreeCancels", len(unguarded(s, body(fre), cancels)) > 0, s.pos(first(cancels)))
+		f.b("bcFreeClosesChan", len(unguarded(s, body(fre), closes)) > 0, s.pos(first(closes)))
+		f.b("bcFreeClosesDone", len(unguarded(s, body(fre), dones)) > 0, s.pos(first(dones)))
 		f.b("bcFreeDeletes", len(dels) > 0, s.pos(first(dels)))
 		f.b("bcFreeUnderLock", under && len(dels) > 0, s.pos(fre))
 	}
@@ -213,11 +214,36 @@ func broadcasterFacts(s *src, f *facts) {
 		for _, a := range append(clears, sets...) {
 			under = under && li.heldFor(a)
 		}
-		f.b("bcCloseCancelsAll", len(cancels) > 0, s.pos(first(cancels)))
+		f.b("bcCloseCancelsAll", len(unguarded(s, rng, cancels)) > 0, s.pos(first(cancels)))
 		f.b("bcCloseClosesChans", len(closes) > 0, s.pos(first(closes)))
 		f.b("bcCloseClosesDone", len(dones) > 0, s.pos(first(dones)))
 		f.b("bcCloseClearsTable", len(clears) > 0, s.pos(first(clears)))
 		f.b("bcCloseSetsClosed", len(sets) > 0, s.pos(first(sets)))
 		f.b("bcCloseUnderLock", under, s.pos(cls))
 	}
+}
+
+// unguarded keeps the calls that sit under no condition other than a map look-up's `ok`.
+func unguarded(s *src, root ast.Node, calls []*ast.CallExpr) []*ast.CallExpr {
+	var out []*ast.CallExpr
+	if isNilNode(root) {
+		return out
+	}
+	for _, c := range calls {
+		ok := true
+		for _, i := range all[*ast.IfStmt](root, nil) {
+			if contains(i, c) && !contains(i.Cond, c) && s.str(i.Cond) != "ok" {
+				ok = false
+			}
+		}
+		for _, sw := range all[*ast.SwitchStmt](root, nil) {
+			if contains(sw, c) {
+				ok = false
+			}
+		}
+		if ok {
+			out = append(out, c)
+		}
+	}
+	return out
 }
